@@ -735,7 +735,49 @@ def ene_err(ctx):
                     (dotted(nd.value.func) or "").endswith("blocking_analysis") and \
                     [e_.id if isinstance(e_, ast.Name) else None for e_ in nd.targets[0].elts] == rn:
                 from_ba = True
-    ctx.ob("KEYS-2", "driver.afqmc returns (energy, error) as blocking_analysis produced them", from_ba, f"returns {rn}", drv)
+    detail = f"returns {rn}"
+    if not from_ba:
+        # the pair may travel through a helper or be renamed on the way: decide on the value graph of driver.afqmc with
+        # its helpers evaluated in place
+        from ..symex import Evaluator, func_name, subterms, strip_wrappers
+        ev = Evaluator(p)
+        ev.auto_inline_helpers = True
+        try:
+            fr = ev.eval_function(drv)
+            rv = [strip_wrappers(r_) for _, r_, _ in fr.returns]
+        except Exception:
+            rv = []
+        verdicts = []
+        for r_ in rv:
+            if r_.op != "tuple" or len(r_.args) != 2:
+                continue
+            src = []
+            for comp in r_.args:
+                got = set()
+                # values only: the tests of the selections on the way (is the error None? ...) are not part of the value
+                pool, stack_, seen_ = [], [comp], set()
+                while stack_:
+                    x = stack_.pop()
+                    if not hasattr(x, "op") or x.uid in seen_:
+                        continue
+                    seen_.add(x.uid)
+                    pool.append(x)
+                    stack_.extend(x.args[1:] if x.op in ("phi", "ifexp") and len(x.args) == 3 else x.args)
+                for x in pool:
+                    if x.op == "getitem" and x.args[1].op == "const" and x.args[1].args[0] in (0, 1) and \
+                            x.args[0].op == "call" and (func_name(x.args[0]) or "").endswith("blocking_analysis"):
+                        got.add(x.args[1].args[0])
+                src.append(got)
+            verdicts.append(src)
+        if verdicts and all(v == [{0}, {1}] for v in verdicts):
+            from_ba, detail = True, "value graph: (blocking_analysis(..)[0], blocking_analysis(..)[1])"
+        elif not verdicts or any(not v[0] or not v[1] for v in verdicts):
+            ctx.rep.note(f"driver.afqmc: the returned pair is not traced back to one blocking_analysis call ({detail}); "
+                         f"the order of (energy, error) in the return value is not decided")
+            return
+        else:
+            detail = f"value graph: result positions of blocking_analysis reaching the two returned values: {verdicts}"
+    ctx.ob("KEYS-2", "driver.afqmc returns (energy, error) as blocking_analysis produced them", from_ba, detail, drv)
 
 
 def prep_dataflow(ctx):
